@@ -671,7 +671,8 @@ def warm_pass(groups, same, max_fail=6):
                         for k in steps],
             "cold": repr(cold[1])[:400] if cold[0] == "ok" else cold[1],
             "warm": repr(warm[1])[:400] if warm[0] == "ok" else warm[1],
-            "module_source": getattr(g, "source", None),
+            "module_source": getattr(g, "src", None) or getattr(g, "source", None),
+            "replay_spec": (g.replay_spec() if hasattr(g, "replay_spec") else None),
         })
         if len(fails) >= max_fail:
             break
@@ -697,7 +698,11 @@ def replay_warm(payload, same):
             cls = getattr(importlib.import_module(modname), clsname)
         except Exception:
             cls = Group
-    g = cls(env, [_tup(r) for r in payload["roots"]], coreprop.suppressed())
+    if payload.get("replay_spec") is not None and hasattr(cls, "from_replay_spec"):
+        # a Group subclass that is not rebuilt from (env, roots) alone (several modules, derived classes ...)
+        g = cls.from_replay_spec(payload["replay_spec"], coreprop.suppressed())
+    else:
+        g = cls(env, [_tup(r) for r in payload["roots"]], coreprop.suppressed())
     g.ref_depth = payload.get("ref_depth", 0)
     try:
         ns = dict(g.mod.__dict__)
